@@ -97,6 +97,7 @@ std::string compare_views(ChkptView const& a, ChkptView const& b, bool ignore_nz
 // independent long double reference of the variance weighted combination: cumulative relative error
 // after each iteration (C12)
 std::vector<ld> reference_rel_errors(ChkptView const& v);
+ld rel_error_uncertainty(ChkptView const& v, int nt);
 
 // the canonical number libstdc++ makes of one 64 bit raw output for numeric type nt
 ld canonical_from_raw64(int nt, u64 raw);
